@@ -15,7 +15,10 @@ RULE = ("c32 <law> <E1> <E2>: base colours of rgb, hsl and hwb origin (all C31 c
         "identity arguments (0, 0%, the channel's own literal value, no argument), darken(lighten(c,a),a) and the "
         "saturate/desaturate, opacify/transparentize analogues where nothing is clamped.  laws `light±`, `sat±`, "
         "`alpha±`: the channel report of E1 is the report of E2 moved by exactly the amount, clamped to the range.  "
-        "law `gray`: saturation 0, lightness and alpha unchanged.  Non-trivial = compiles and the base is neither black, "
+        "law `gray`: saturation 0, lightness and alpha unchanged.  Strata `oor-*`: hsl()/hwb() origin colours whose "
+        "saturation/lightness is already outside 0..100% (both directions) into lighten/darken/saturate/desaturate "
+        "with small and large amounts (result must be the moved value clamped to the range) and into the identity "
+        "forms of adjust/scale/change-color.  Non-trivial = compiles and the base is neither black, "
         "white nor transparent.")
 TRUSTED = ["Lean Float = IEEE f64 (validated by the correspondence run)", "C10 number formatter model",
            "python Fraction colour calculator (chooses amounts that do not clamp)"]
@@ -77,6 +80,33 @@ def in_range_ctor(rng, names):
         if ok:
             return t
     return ("hex", "336699")
+
+
+OOR_HI = [100.5, 101, 110, 120, 130, 150, 200, 250]
+OOR_LO = [-0.5, -1, -10, -20, -30, -50, -100]
+
+
+def oor_base(rng):
+    """an hsl()/hwb() origin colour whose saturation and/or lightness report is already outside 0..100%
+    (they exist because of the open finding C31-hsl-unclamped / C31-hwb-unclamped), both directions"""
+    h = (C31.hue(rng), rng.choice("nd"))
+    a = rng.choice([None, None, (0.5, "n"), (25.0, "p")])
+    inr = lambda: float(rng.choice([0, 100, 50, 25, 75, 10, 90, rng.randint(0, 100)]))
+    out = lambda: float(rng.choice(OOR_HI if rng.random() < .5 else OOR_LO))
+    k = rng.randrange(6)
+    if k < 4:
+        head = rng.choice(["hsl", "hsla"])      # comma syntax (negative numbers allowed)
+        which = rng.choice(["l", "l", "s", "sl"])
+        s_ = out() if "s" in which else inr()
+        l_ = out() if "l" in which else inr()
+        return (head, h, (s_, "p"), (l_, "p"), a)
+    if k == 4:
+        # hwb with w - b > 100% (lightness above 100%) or b - w > 100% (lightness below 0%)
+        big, small = float(rng.choice([110, 130, 150])), float(rng.choice([-10, -20, -5]))
+        w, b = (big, small) if rng.random() < .5 else (small, big)
+        return ("hwbc", h, (w, "p"), (b, "p"), a)
+    # hwb with negative whiteness / blackness (saturation above 100%)
+    return ("hwbc", h, (float(rng.choice([-20, -5, -50])), "p"), (float(rng.choice([30.5, 10, 60])), "p"), a)
 
 
 def amount(rng, hi=100.0):
@@ -143,6 +173,9 @@ def law_case(rng, names):
         d = C31.hue(rng)
         return "same", call("adjust-hue", call("adjust-hue", c, pos(d, "d")), pos(-d, "d")), c, "adjust-hue-cancel"
     if k in (5, 6):
+        if rng.random() < 0.25:
+            c = oor_base(rng)
+            return "same", identity_call(rng, c), c, "oor-identity"
         return "same", identity_call(rng, c), c, "identity"
     if k in (7, 8, 9):
         # undo laws where nothing is clamped (amount chosen from the exact channel value)
@@ -169,6 +202,14 @@ def law_case(rng, names):
         return "same", call(f2, call(f1, c, pos(amt, u)), pos(amt, u)), c, "undo-" + which[0]
     if k in (10, 11, 12, 13, 14):
         which = rng.choice(["light+", "light-", "sat+", "sat-", "alpha+", "alpha-"])
+        if rng.random() < 0.35:
+            # base already out of range: the result must still be the moved value CLAMPED to the range,
+            # in both directions (small amounts leave the unclamped value outside the range)
+            c = oor_base(rng)
+            which = rng.choice(["light+", "light-", "sat+", "sat-"])
+            amt = float(rng.choice([0, 1, 5, 10, 20, 100])) if rng.random() < .7 else amount(rng)
+            f = {"light+": "lighten", "light-": "darken", "sat+": "saturate", "sat-": "desaturate"}[which]
+            return "%s:%d" % (which, C.bits(amt)), call(f, c, pos(amt, rng.choice("pn"))), c, "oor-" + which
         if which.startswith("alpha"):
             amt = round(rng.random(), rng.randint(0, 3)) if rng.random() < .8 else float(rng.choice([0, 1]))
             f = "opacify" if which == "alpha+" else "transparentize"
@@ -184,6 +225,14 @@ def law_case(rng, names):
 def gen(tier, rng, boost=1):
     cssn = C.css_names()
     names = sorted(cssn) + ["transparent"]
+    # fixed boundary cases: out-of-range hsl lightness/saturation moved in both directions
+    for l_ in (130.0, 100.5, -30.0, -0.5):
+        for s_ in (50.0, 150.0, -20.0):
+            c = ("hsl", (120.0, "n"), (s_, "p"), (l_, "p"), None)
+            for which, f in (("light+", "lighten"), ("light-", "darken"), ("sat+", "saturate"), ("sat-", "desaturate")):
+                for amt in (0.0, 10.0, 100.0):
+                    yield Case("c32\t%s:%d\t%s\t%s" % (which, C.bits(amt), C.enc(call(f, c, pos(amt, "p"))), C.enc(c)),
+                               "oor-fixed", {"scss": C.show(call(f, c, pos(amt, "p"))) + "  vs  " + C.show(c)})
     n = (2500 if tier == "quick" else 50000) * boost
     for i in range(n):
         r = law_case(rng, names)
